@@ -34,6 +34,8 @@ fn main() {
     }
     let res = match prop.as_str() {
         "C08" => props::c08::run(&cfg),
+        "C09" => props::c09::run(&cfg),
+        "C10" => props::c10::run(&cfg),
         "C15" => props::c15::run(&cfg),
         _ => {
             eprintln!("unknown property {}", prop);
